@@ -72,4 +72,5 @@ def build(u):
             "-> (r: Arc<HtlcManager<BlockWatcher, EmailNotificationService, PayPaymentProvider<Rpc>, ClnDatastore>>)",
             tail="htlc_manager",
             note="slice main#manager: the wrapper's parameters are the locals the statement reads; their types are declared in the unit and forced by the real HtlcManagerParams field types")
+    u.auto_here(mn, "main")
     u.raw("} // verus!\nfn main() {}\n")
